@@ -180,6 +180,15 @@ def coerce(v, ty):
         for sub, want in zip(tuple_items(v), ty.args):
             parts += coerce(sub, want).parts
         return Val(ty, parts)
+    if ty.kind == "method" and v.ty.kind == "method":
+        from . import ops as _O
+        (vc, vm), (tc, tm) = v.ty.name.rsplit(".", 1), ty.name.rsplit(".", 1)
+        if vm == tm and (_O.is_subrecord(vc, tc) or _O.is_subrecord(tc, vc)):
+            return Val(ty, v.parts)
+        raise UnsupportedError(f"bound method {v.ty.name} passed where {ty.name} is declared")
+    if ty.kind == "opaque" and v.ty.kind == "method":
+        from .speceval import apply_uf
+        return apply_uf("boundmethod:" + v.ty.name.rsplit(".", 1)[1], T.OPAQUE, [Val(T.Ref(v.ty.name.rsplit(".", 1)[0]), v.parts)])
     if ty.kind == "opaque" and v.parts:
         return to_opaque(v)
     if ty.kind == "opaque" and v.ty.kind == "none":
